@@ -1521,3 +1521,114 @@ def run_glue_source(case):
     finally:
         CobaContext.cacher, CobaContext.store, CobaContext.logger = old_cacher, old_store, old_logger
     return out
+
+
+# ---------------------------------------------------------------------------------------------- phase 6: typed keys
+def dec_key(j):
+    """typed key of a `keyeq` case -> the Python object handed to the cacher"""
+    t = j[0]
+    if t == "int":
+        return int(str(j[1]))             # a fresh object for big ints: equal keys of two callers are not the same object
+    if t == "float":
+        return float(repr(float(j[1])))
+    if t == "bool":
+        return bool(j[1])
+    if t == "str":
+        return (str(j[1]) + " ")[:-1]     # fresh str object (equal, not identical)
+    if t == "none":
+        return None
+    if t == "tuple":
+        return tuple(dec_key(x) for x in j[1])
+    raise ValueError("bad typed key %r" % (j,))
+
+
+def run_keyeq(case):
+    """history on a real ConcurrentCacher(MemoryCacher()) with two keys k1, k2 of any hashable type:
+    T0 get_set(k1) [getter 1 runs and is held] ; T1 get_set(k2) [getter 2] while T0 is inside its getter (blocked or not) ; T0 finishes ;
+    T1 finishes ; rmv(k2) ; get_set(k1) [getter 3].  Deterministic (events, no sleeps decide anything)."""
+    import time as realtime
+    import coba.context.cachers as M
+    k1, k2 = dec_key(case["k1"]), dec_key(case["k2"])
+    cc = M.ConcurrentCacher(M.MemoryCacher())
+    lk = threading.Lock()
+    in_getter, release, t1_blocked, t1_done = threading.Event(), threading.Event(), threading.Event(), threading.Event()
+    st = {"inside": 0, "max": 0}
+    log, errs = [], []
+    vals = {"t0": None, "t1": None, "again": None}
+    t1_ident = [None]
+
+    class Fake:
+        @staticmethod
+        def sleep(_s):
+            if threading.current_thread().ident == t1_ident[0]:
+                t1_blocked.set()
+            realtime.sleep(0.002)
+
+    def getter(v, hold):
+        def g():
+            with lk:
+                st["inside"] += 1
+                st["max"] = max(st["max"], st["inside"])
+                log.append(["getter-start", v])
+            if hold:
+                in_getter.set()
+                release.wait(40)
+            with lk:
+                st["inside"] -= 1
+                log.append(["getter-end", v])
+            return [v, "complete"]
+        return g
+
+    def t0():
+        try:
+            with cc.get_set(k1, getter(1, True)) as x:
+                vals["t0"] = x
+        except BaseException as e:  # noqa
+            errs.append(["t0", type(e).__name__, str(e)[:80]])
+        finally:
+            in_getter.set()
+
+    def t1():
+        t1_ident[0] = threading.current_thread().ident
+        try:
+            with cc.get_set(k2, getter(2, False)) as x:
+                vals["t1"] = x
+        except BaseException as e:  # noqa
+            errs.append(["t1", type(e).__name__, str(e)[:80]])
+        finally:
+            t1_done.set()
+
+    undo = patch_time(M, Fake)
+    hung = False
+    try:
+        a = threading.Thread(target=t0, daemon=True)
+        b = threading.Thread(target=t1, daemon=True)
+        a.start()
+        in_getter.wait(25)
+        b.start()
+        end = realtime.time() + 25
+        while not (t1_blocked.is_set() or t1_done.is_set()) and realtime.time() < end:
+            realtime.sleep(0.001)
+        blocked = t1_blocked.is_set() and not t1_done.is_set()
+        t1_early = t1_done.is_set()
+        release.set()
+        a.join(20)
+        b.join(20)
+        hung = a.is_alive() or b.is_alive()
+        if not hung:
+            try:
+                cc.rmv(k2)
+                log.append(["rmv"])
+                with cc.get_set(k1, getter(3, False)) as x:
+                    vals["again"] = x
+            except BaseException as e:  # noqa
+                errs.append(["main", type(e).__name__, str(e)[:80]])
+    finally:
+        release.set()
+        for name, val in undo:
+            setattr(M, name, val)
+    slots = [int(cc._index(k1)), int(cc._index(k2))]
+    return {"blocked": blocked, "t1_finished_inside": t1_early, "max_inside": st["max"], "log": log, "vals": vals, "errs": errs, "hung": hung,
+            "slots": slots, "arr_nonzero": [[i, int(v)] for i, v in enumerate(cc._array) if v != 0],
+            "locks_nonzero": sorted([repr(k), int(v)] for k, v in cc._locks.items() if v != 0),
+            "same_entry": k2 in {k1: 0}, "same_text": str(k1) == str(k2), "expected_slots": [kidx(k1), kidx(k2)]}
